@@ -1287,6 +1287,11 @@ def pm10_demotion(r, R):
     # returns the same root
     rets = [s for s in ds.assigns() if s.node["place"]["l"] == 0 and s.node["rv"]["k"] == "agg" and s.node["rv"]["variant"] == "Ok"]
     okr = len(rets) == 1 and strip(term_of(ds, rets[0].node["rv"]["ops"][0])) in (("arg", par["root"]), ("local", par["root"]))
+    if f.get("output", {}).get("adt") == "element::Element":
+        # an infallible step hands the element back directly
+        plain = [s_ for s_ in ds.assigns() if s_.node["place"]["l"] == 0 and not s_.node["place"]["p"]]
+        okr = len(plain) == 1 and plain[0].node["rv"]["k"] == "use" and strip(term_of(ds, plain[0].node["rv"]["op"])) in (("arg", par["root"]), ("local", par["root"]))
+        rets = plain
     if f["inputs"][par["root"] - 1].get("s", "").startswith("&mut "):
         # the step demotes on the caller's element in place: there is no element to hand back
         def unit(t):
